@@ -278,6 +278,20 @@ CloneU(d, rs, e) ==
     IN UidRule(new, [x \in new |-> uid[order[x - nextRef + 1]]], e, {}, NoDom, {})
 
 -----------------------------------------------------------------------------
+(* into_raw followed by from_raw: the DOM is taken apart into (root, instance map) and put back    *)
+(* together.  Nothing observable changes; the bookkeeping set is rebuilt from the instances'       *)
+(* UniqueId properties (from_raw panics on duplicates, which UidDistinct excludes).                *)
+
+RawTripS(d) ==
+    /\ root[d] # Null
+    /\ UNCHANGED <<owner, parent, kids, label, refp, root, nextRef>>
+
+RawTripU(d) ==
+    /\ uid' = uid
+    /\ uidset' = [x \in Doms |-> IF x = d THEN {uid[r] : r \in In(d)} \ {NoUid} ELSE uidset[x]]
+    /\ seen' = seen
+
+-----------------------------------------------------------------------------
 (* Direct mutation of a Ref property through get_by_ref_mut (public field).  *)
 
 SetRefS(r, s, v) ==
